@@ -13,7 +13,9 @@ import numpy as np
 
 from harness import zoo
 
-EPS = np.finfo(np.float64).eps
+F32 = not jax.config.jax_enable_x64          # the single-precision pass: a worker started without x64 (the library's default mode)
+EPS = np.finfo(np.float32 if F32 else np.float64).eps
+KAPMAX = 1e3 if F32 else 1e11
 
 
 def _jacobian(f, x):
@@ -98,6 +100,11 @@ def case_c01(rep, spec):
         rep.note(f"{spec.get('factory')}: cannot be built in this environment; skipped")
         return
     b, c = z["b"], z["cond"]
+    if F32:
+        if z["bisect"]:
+            return          # the search tolerance (1e-7) is the resolution of float32: the float64 pass judges the inverter
+        z["name"] += " [float32]"
+        z["points"] = [p for p in z["points"] if np.all(np.abs(np.asarray(p["x"], float)) <= 100.0)]
     for p in z["points"]:
         x = jnp.asarray(p["x"])
         key = _key(z, p)
@@ -127,7 +134,7 @@ def case_c01(rep, spec):
             continue
         xn, xbn = np.asarray(x), np.asarray(xb)
         scale = 1 + np.abs(xn).max() + np.abs(yn).max()
-        if kap > 1e11:
+        if kap > KAPMAX:
             rep.count(1)            # ill-conditioned point: no finite-precision promise
             continue
         if z["bisect"]:
@@ -151,7 +158,7 @@ def case_c01(rep, spec):
                 ki = _cond(Ji)
                 yy = np.asarray(b.transform(xi, c))
                 sc2 = 1 + np.abs(xn).max() + np.abs(np.asarray(xi)).max()
-                if ki <= 1e11:
+                if ki <= KAPMAX:
                     tol2 = (1e-4 * sc2 * max(1.0, ki)) if z["bisect"] else 256 * EPS * sc2 * max(1.0, ki)
                     rep.count(1, (z["name"], "codomain", p["tag"][:24]))
                     if not np.all(np.abs(yy - xn) <= tol2):
@@ -331,6 +338,8 @@ def case_c18(rep, spec):
     if z is None:
         return
     b, c = z["b"], z["cond"]
+    if F32:
+        z["name"] += " [float32]"
     orient = [("inverted", Invert(b))] + ([] if z["noinv"] else [("direct", b)])
     for oname, bij in orient:
         try:
